@@ -169,6 +169,7 @@ MUTANTS = [
     ("c20_wrong_slice_in_theta", "C20", QC, "probabilities.cores[i][:,sample_matrix[:,i].astype('int'),0,:]", "probabilities.cores[i][:,(1-sample_matrix[:,i]).astype('int'),0,:]", 1, "600,0"),
     ("c20_counts_over_n_plus_1", "C20", QC, "probabilities = counts/number_of_samples", "probabilities = counts/(number_of_samples+1)", 1, "600,0"),
     ("c20_no_identity_contraction", "C20", QC, "@(np.eye(int(np.sqrt(probabilities.ranks[i+1]))).flatten())", "@(np.ones(probabilities.ranks[i+1]))", 1, "1500,0"),
+    ("c20_eps_guarded_division", "C20", QC, "cond_prob[:,0]/np.sum(cond_prob,axis=1))", "cond_prob[:,0]/np.maximum(np.sum(cond_prob,axis=1), np.finfo(float).eps))", 1, "6000,0"),
     ("c20_mutates_state", "C20", QC, "    # squeeze probability tensor", "    quantum_state.cores[0] = quantum_state.cores[0] * 1.0000001\n    # squeeze probability tensor", 1, "600,0"),
 ]
 
